@@ -3,8 +3,10 @@
      G ::= gnil | (gb 0|1) | (gi W Z) | (gu W Z) | (gf W FL) | (gs x<hex>) | (gt x<hex>)
          | gslicenil | (gslice G...) | gmapnil | (gmap (x<hex> G)...) | (gbadmap N)
          | (gstruct (x<hex> EXPORTED EMBEDDED G)...)          EXPORTED, EMBEDDED ::= 0 | 1
-         | gptrnil | (gptr G) | gifacenil | (giface G)
-         | (gmarshal V) | (gval V) | gunsupported
+         | gptrnil | (gnilptrto 0|1) | (gptr G) | gifacenil | (giface G)
+         | (gmarshal V G) | (gval V) | gunsupported
+   (gnilptrto 1): a nil pointer to a value-receiver Marshaler type, (gnilptrto 0): to a data.Value type;
+   (gmarshal V G): MarshalValue() returns V, G is the same value as reflection sees it
    W = width in bits, Z = decimal integer, FL = nan | inf+ | inf- | z+ | z- | (f m e). *)
 open Model
 open Driver
@@ -34,7 +36,8 @@ let rec goval_of (t : Sexp.t) : goval =
   | L [A "gptr"; g] -> GPtr (Some (goval_of g))
   | A "gifacenil" -> GIface None
   | L [A "giface"; g] -> GIface (Some (goval_of g))
-  | L [A "gmarshal"; v] -> GMarshal (value_of v)
+  | L [A "gnilptrto"; m] -> GNilPtrTo (bb m)
+  | L [A "gmarshal"; v; g] -> GMarshal (value_of v, goval_of g)
   | L [A "gval"; v] -> GValue (value_of v)
   | A "gunsupported" -> GUnsupported
   | t -> failwith ("bad goval " ^ Sexp.to_string t)
